@@ -28,6 +28,8 @@ type Decl struct {
 }
 
 type SMT struct {
+	NoAxioms bool // reachability covers are decided without the quantified background axioms
+	typeOfID map[int]types.Type
 	BV     bool
 	decls  map[string]*Decl // symbol -> decl that introduces it
 	all    []*Decl
@@ -143,6 +145,9 @@ func (s *SMT) Relevant(text string) string {
 		}
 		progress := false
 		for _, a := range s.axioms {
+			if s.NoAxioms && strings.Contains(a.Text, "forall") {
+				continue
+			}
 			if need[a] {
 				continue
 			}
@@ -362,6 +367,10 @@ func (s *SMT) TypeID(t types.Type) int {
 	}
 	id := len(s.typeID) + 1
 	s.typeID[k] = id
+	if s.typeOfID == nil {
+		s.typeOfID = map[int]types.Type{}
+	}
+	s.typeOfID[id] = t
 	return id
 }
 
